@@ -3,7 +3,7 @@ HG = 'src/strict/hypergraph/object.rs'
 
 module('hypergraph', uses=['vstd::std_specs::cmp::*'])
 
-typedef(HG, 'InvalidHypergraph')
+typedef(HG, 'InvalidHypergraph', extra_attrs=['#[derive(Debug)]'])
 typedef(HG, 'Hypergraph')
 
 raw(r'''
